@@ -21,11 +21,14 @@
 
 /* ---- the line as getline returned it (bound in the precondition) */
 char *g_line; size_t g_cap; ssize_t g_r;
-size_t g_nul;                 /* index of a NUL byte in line[0..g_r] - "the first one" is what the ghost stands for; every choice is explored */
+size_t g_p;                   /* PROPHECY: the index at which strlen will find the end of the text (universally quantified; the strlen model
+                                 discards the runs in which the guess is wrong, so every real run is covered) */
+int g_pb, g_pprev;            /* the bytes at g_p and g_p-1 in the line AS READ (before the body writes anything) */
+int g_strlen_calls;
 /* ---- computed once at the ghost step from the unmodified line */
 size_t g_end;                 /* where the content ends: before "\r\n" / "\n", or at g_r */
 int g_first;                  /* first byte */
-size_t g_fn;                  /* first NUL of the line once the terminator has been replaced: min(g_nul, g_end) */
+size_t g_fn;                  /* where the C string that starts at the line's first byte ends (= g_p once strlen has confirmed the guess) */
 size_t g_off;                 /* 1 if a leading space is skipped */
 int g_lastb;                  /* last byte of the text that remains, -1 if it is empty */
 size_t g_explen;              /* expected length of the trimmed text */
@@ -37,15 +40,28 @@ unsigned long g_pass, g_fail, g_msg;
 const char *rec_email; size_t rec_len; int rec_verdict, rec_calls;
 const char *g_san_ret, *g_err_ret;
 
-/* A8: strlen is only ever applied to the start of the trimmed text, after the terminator has been replaced by NUL */
+/* A8: strlen(s) = the index of the first NUL byte from s on.  Model: the prophesied index g_p, provided there IS a NUL
+   there now and (instance of "no NUL before it") the place of the line terminator is not a NUL before it.  Other
+   instances of "the first" are not needed: a C string ends where strlen says it ends; the obligations below say that
+   this place is legitimate - at or before the terminator, and either the terminator's place or a NUL that was already
+   in the line as read (so the body has not cut the text short by writing a NUL of its own). */
 size_t strlen(const char *s)
 {
-    __CPROVER_assert(g_stepped && s == g_line + g_off, "strlen is applied to the line after at most one leading space");
+    __CPROVER_assert(g_stepped && g_strlen_calls == 0 && s == g_line + g_off, "strlen is applied, once, to the line after at most one leading space");
+    g_strlen_calls++;
+    __CPROVER_assume(g_p >= g_off);
+    size_t k = g_p - g_off;
     /* read through the argument, not through the ghost pointer: CBMC's points-to sets do not learn from the equality
        g_line == line assumed in the precondition, a dereference of g_line would read an unknown object */
-    char t = s[g_end - g_off];
-    __CPROVER_assert(t == 0, "the line terminator has been replaced by NUL before the length is taken");
-    return g_fn - g_off;
+    char at_k = s[k];
+    __CPROVER_assume(at_k == 0);
+    if (g_end - g_off < k) { char at_end = s[g_end - g_off]; __CPROVER_assume(at_end != 0); }
+    __CPROVER_assert(g_p <= g_end, "the text handed to the library ends at or before the line terminator (the terminator has been replaced by NUL)");
+    __CPROVER_assert(g_pb == 0 || g_p == g_end, "the text ends at the terminator or at a NUL byte of the line as read, not at a NUL the body wrote elsewhere");
+    g_fn = g_p;
+    g_lastb = (g_fn - g_off > 0) ? g_pprev : -1;
+    g_explen = (g_lastb == ' ' || g_lastb == '\t') ? g_fn - g_off - 1 : g_fn - g_off;
+    return k;
 }
 
 /* output model: which record, in which order, with which text.  Every output statement of the body has the shape
@@ -74,7 +90,7 @@ int model_fprintf(FILE *f, const char *fmt, const char *arg)
 
 int eav_is_email(eav_t *eav, const char *email, size_t length)
 /* the library is asked, once, about exactly the trimmed line */
-__CPROVER_requires(g_stepped && rec_calls == 0 && g_first != '#' && email == g_line + g_off && length == g_explen)
+__CPROVER_requires(g_stepped && g_strlen_calls == 1 && rec_calls == 0 && g_first != '#' && email == g_line + g_off && length == g_explen)
 __CPROVER_assigns(rec_email, rec_len, rec_verdict, rec_calls)
 __CPROVER_ensures(rec_email == email && rec_len == length && rec_verdict == __CPROVER_return_value && rec_calls == 1 && (__CPROVER_return_value == 0 || __CPROVER_return_value == 1))
 ;
@@ -89,11 +105,8 @@ __CPROVER_ensures(g_last_call == K_ERRSTR && __CPROVER_return_value == g_err_ret
     int lb1_ = (int)(unsigned char)line[read - 1]; int lb2_ = read >= 2 ? (int)(unsigned char)line[read - 2] : -1; \
     g_first = (int)(unsigned char)line[0]; \
     g_end = (lb2_ == '\r' && lb1_ == '\n') ? (size_t)read - 2 : (lb1_ == '\n') ? (size_t)read - 1 : (size_t)read; \
-    g_fn = g_nul < g_end ? g_nul : g_end; \
     g_off = (g_first == ' ') ? 1 : 0; \
-    __CPROVER_assert(g_off <= g_fn, "GHOST: a line that starts with a space has at least one byte of content"); \
-    g_lastb = (g_fn - g_off > 0) ? (int)(unsigned char)line[g_fn - 1] : -1; \
-    g_explen = (g_lastb == ' ' || g_lastb == '\t') ? g_fn - g_off - 1 : g_fn - g_off; \
+    g_pb = (int)(unsigned char)line[g_p]; g_pprev = g_p >= 1 ? (int)(unsigned char)line[g_p - 1] : -1; \
     g_stepped = 1; }
 
 /* bin/main.h: msg_ok / msg_warn and sanitize_utf8 (proved in job cli_sanitize; here: it is given exactly the text that
@@ -111,12 +124,12 @@ __CPROVER_ensures(g_last_call == K_SANITIZE && __CPROVER_return_value == g_san_r
 static void parse_line(eav_t *eav, char *line, ssize_t read)
 /* the buffer getline hands over: cap bytes, read >= 1 of them read, NUL after them */
 __CPROVER_requires(g_cap <= ((size_t)1 << 31) && read >= 1 && (size_t)read < g_cap && __CPROVER_is_fresh(line, g_cap) && line[read] == 0)
-__CPROVER_requires(g_line == line && g_r == read && g_nul <= (size_t)read && line[g_nul] == 0)
+__CPROVER_requires(g_line == line && g_r == read && g_p <= (size_t)read)
 /* A8: fewer than 2^31 lines per file (the counters are int) */
 __CPROVER_requires(pl_passed >= 0 && pl_passed < 0x7fffffff && pl_failed >= 0 && pl_failed < 0x7fffffff)
-__CPROVER_requires(g_stepped == 0 && rec_calls == 0 && g_last_kind == 0 && g_last_call == NONE && g_pass < (1UL << 62) && g_fail < (1UL << 62) && g_msg < (1UL << 62))
+__CPROVER_requires(g_stepped == 0 && g_strlen_calls == 0 && rec_calls == 0 && g_last_kind == 0 && g_last_call == NONE && g_pass < (1UL << 62) && g_fail < (1UL << 62) && g_msg < (1UL << 62))
 __CPROVER_assigns(pl_cp, pl_len, pl_passed, pl_failed, __CPROVER_object_whole(line))
-__CPROVER_assigns(g_end, g_first, g_fn, g_off, g_lastb, g_explen, g_stepped, g_last_call, g_last_kind, g_pass, g_fail, g_msg, rec_email, rec_len, rec_verdict, rec_calls)
+__CPROVER_assigns(g_end, g_first, g_fn, g_off, g_lastb, g_explen, g_stepped, g_pb, g_pprev, g_strlen_calls, g_last_call, g_last_kind, g_pass, g_fail, g_msg, rec_email, rec_len, rec_verdict, rec_calls)
 /* comment line: nothing happens */
 __CPROVER_ensures(g_first == '#' ==> (rec_calls == 0 && g_pass == OLD(g_pass) && g_fail == OLD(g_fail) && g_msg == OLD(g_msg) && pl_passed == OLD(pl_passed) && pl_failed == OLD(pl_failed)))
 /* any other line: one library call (its arguments are pinned by eav_is_email's precondition), one record that agrees with it */
